@@ -428,6 +428,16 @@ fn gen(rng: &mut Rng, n: usize, tier: &str) -> Vec<Req> {
             reqs.push(Req::new(clean_req(&cfg, d), format!("attrsets.{el}")));
         }
     }
+    // foreign content (namespaced attributes) × plain and random configurations
+    let mut docs = Vec::new();
+    gen::foreign_docs(rng, &mut docs);
+    for d in &docs {
+        let cfg = match rng.below(4) {
+            0 | 1 => gen::plain_cfgs()[rng.below(5)].clone(),
+            _ => gen::gen_cfg(rng),
+        };
+        reqs.push(Req::new(clean_req(&cfg, d), "foreign"));
+    }
     // random documents × random configurations
     for i in 0..n {
         let cfg = gen::gen_cfg(rng);
